@@ -489,7 +489,7 @@ func main() {
 		},
 		Run:              run,
 		CaseTimeout:      40 * time.Minute,
-		QuickDeadline:    20 * time.Minute,
+		QuickDeadline:    12 * time.Minute,
 		ThoroughDeadline: 55 * time.Minute,
 	})
 }
